@@ -623,26 +623,6 @@ Definition ns_peer (fl : flags) (sub : bool) (a b : str) : M unit :=
              (fun e => remove_cp_and_links ib true ;;; raise e))
     (fun e => remove_cp_and_links ia true ;;; raise e).
 
-(* ---- shortest path for unpeer (networkx.shortest_path on the extracted graph) --------------------------------- *)
-Definition all_nbrs (g : graph) (x : str) : list str := map fst (nbrs g x).
-Fixpoint bfs_levels (g : graph) (fuel : nat) (frontier visited : list str) : list (list str) :=
-  match fuel with
-  | O => []
-  | Datatypes.S f =>
-      match frontier with
-      | [] => []
-      | _ =>
-          let next := dedup (filter (fun y => negb (mem_str y visited)) (flat_map (all_nbrs g) frontier)) in
-          frontier :: bfs_levels g f next (visited ++ next)
-      end
-  end.
-Fixpoint level_of (x : str) (ls : list (list str)) (k : nat) : option nat :=
-  match ls with [] => None | l :: r => if mem_str x l then Some k else level_of x r (Datatypes.S k) end.
-Definition dist (g : graph) (a x : str) : option nat :=
-  level_of x (bfs_levels g (Datatypes.S (length (gnodes g))) [a] [a]) O.
-Definition dist_is (g : graph) (a x : str) (d : nat) : bool :=
-  match dist g a x with Some k => Nat.eqb k d | None => false end.
-
 (* NetworkService.unpeer (network_service.py, fix 24d5e04): the peerings are found from this service's own service
    ports -- such a port, its link, and at the other end a service port owned by the other service; every peering
    between the two services is removed (both ports, hence the link); no peering: TopologyException *)
